@@ -300,10 +300,12 @@ class MappingStorage:
             self._transaction = transaction
             self._tdata = {}
             if tid is None:
+                # Later than everything committed so far.  The last
+                # committed id counts even if a pack has removed that
+                # transaction (it wrote garbage only).
+                old_tid = self._ltid
                 if self._transactions:
-                    old_tid = self._transactions.maxKey()
-                else:
-                    old_tid = None
+                    old_tid = max(old_tid, self._transactions.maxKey())
                 tid = ZODB.utils.newTid(old_tid)
             self._tid = tid
 
